@@ -38,10 +38,12 @@ void harness(void)
 	if (nondet_bool()) lp->refrow = dupstr("F");
 	if (nondet_bool()) { rv = mpq_ILLraw_init_rhs(lp); ASSUME(rv == 0); lp->rhs = mpq_EGlpNumAllocArray(NR); lp->rhssize = NR; }
 	if (nondet_bool()) { rv = mpq_ILLraw_init_bounds(lp); ASSUME(rv == 0); }
-	mpq_init(v); mpq_set_si(v, 3, 1);
+	mpq_init(v); { int vv = nondet_int(); mpq_set_si(v, vv, 1); }	/* any value, zero included: an explicit zero coefficient is still an entry (it makes the variable part of the problem) */
 	{
 		int nco = nondet_int(); ASSUME(0 <= nco && nco <= NCOEF);
-		for (k = 0; k < NCOEF; k++) if (k < nco) { int c = nondet_int(), r = nondet_int(); ASSUME(0 <= c && c < NC && 0 <= r && r < NR); rv = mpq_ILLraw_add_col_coef(lp, c, r, v); ASSUME(rv == 0); }
+		for (k = 0; k < NCOEF; k++) if (k < nco) { int c = nondet_int(), r = nondet_int(); ASSUME(0 <= c && c < NC && 0 <= r && r < NR); rv = mpq_ILLraw_add_col_coef(lp, c, r, v); ASSUME(rv == 0);
+			ASSERT(lp->cols[c] != 0 && lp->cols[c]->this_val == r && NUMV(lp->cols[c]->coef) == NUMV(v), "C10: every coefficient read becomes an entry of its column (row, value), a zero value included"); }
+		{ int total = 0, c; for (c = 0; c < NC; c++) { mpq_colptr *q = lp->cols[c]; for (k = 0; k < NCOEF + 1; k++) if (q) { total++; q = q->next; } } ASSERT(total == nco, "C10: the column lists hold exactly one entry per coefficient read"); }
 	}
 	if (nondet_bool()) {
 		int nrg = nondet_int(); ASSUME(0 <= nrg && nrg <= NRNG);
